@@ -23,6 +23,10 @@ use tracing::{debug, info, instrument, trace};
 pub enum ConnectionManagerRequest {
     ConnectRequest(Address, Option<PeerId>, oneshot::Sender<Result<PeerId>>),
     Shutdown(oneshot::Sender<()>),
+    #[cfg(bmwill_anemo_verif)]
+    VerifAbortHandlers,
+    #[cfg(bmwill_anemo_verif)]
+    VerifAbortPending,
 }
 
 struct ConnectingOutput {
@@ -112,6 +116,8 @@ impl ConnectionManager {
         // more smeared out over time to avoid spiky load / thundering herd issues where all dial
         // requests happen around the same time.
         let jitter = std::time::Duration::from_millis(1_000).mul_f64(rand::random::<f64>());
+        #[cfg(bmwill_anemo_verif)]
+        let jitter = verif::jitter_override().unwrap_or(jitter);
         let mut interval =
             tokio::time::interval(self.config.connectivity_check_interval() + jitter);
 
@@ -139,6 +145,14 @@ impl ConnectionManager {
                         ConnectionManagerRequest::Shutdown(oneshot) => {
                             shutdown_notifier = Some(oneshot);
                             break;
+                        }
+                        #[cfg(bmwill_anemo_verif)]
+                        ConnectionManagerRequest::VerifAbortHandlers => {
+                            self.connection_handlers.abort_all();
+                        }
+                        #[cfg(bmwill_anemo_verif)]
+                        ConnectionManagerRequest::VerifAbortPending => {
+                            self.pending_connections.abort_all();
                         }
                     }
                 }
@@ -539,6 +553,8 @@ impl ActivePeers {
     }
 
     pub fn remove(&self, peer_id: &PeerId, reason: DisconnectReason) {
+        #[cfg(bmwill_anemo_verif)]
+        verif::tap(|| verif::TapEvent::RemoveCall { peer: *peer_id });
         self.inner_mut().remove(peer_id, reason)
     }
 
@@ -548,21 +564,41 @@ impl ActivePeers {
         stable_id: usize,
         reason: DisconnectReason,
     ) {
+        #[cfg(bmwill_anemo_verif)]
+        verif::tap(|| verif::TapEvent::RemoveIdCall {
+            peer: peer_id,
+            stable_id,
+            reason: reason.clone(),
+        });
         self.inner_mut()
             .remove_with_stable_id(peer_id, stable_id, reason)
     }
 
     #[must_use]
     fn add(&self, own_peer_id: &PeerId, new_connection: Connection) -> Option<Connection> {
+        #[cfg(bmwill_anemo_verif)]
+        verif::tap_add(own_peer_id, &new_connection);
         self.inner_mut().add(own_peer_id, new_connection)
     }
 
+    #[cfg(not(bmwill_anemo_verif))]
     fn inner(&self) -> std::sync::RwLockReadGuard<'_, ActivePeersInner> {
         self.0.read().unwrap()
     }
 
+    #[cfg(not(bmwill_anemo_verif))]
     fn inner_mut(&self) -> std::sync::RwLockWriteGuard<'_, ActivePeersInner> {
         self.0.write().unwrap()
+    }
+
+    #[cfg(bmwill_anemo_verif)]
+    fn inner(&self) -> verif::ReadGuard<'_> {
+        verif::ReadGuard::new(&self.0)
+    }
+
+    #[cfg(bmwill_anemo_verif)]
+    fn inner_mut(&self) -> verif::WriteGuard<'_> {
+        verif::WriteGuard::new(&self.0)
     }
 
     fn len(&self) -> usize {
@@ -651,6 +687,10 @@ impl ActivePeersInner {
     }
 
     fn send_event(&self, event: PeerEvent) {
+        #[cfg(bmwill_anemo_verif)]
+        verif::point("send_event");
+        #[cfg(bmwill_anemo_verif)]
+        verif::tap(|| verif::TapEvent::Event(event.clone()));
         // We don't care if anyone is listening
         let _ = self.peer_event_sender.send(event);
     }
@@ -751,6 +791,10 @@ impl KnownPeers {
         self.0.write().unwrap()
     }
 }
+
+#[cfg(bmwill_anemo_verif)]
+#[path = "verif.rs"]
+pub mod verif;
 
 #[cfg(test)]
 mod tests {
